@@ -90,8 +90,8 @@ static inline Bytes imf(unsigned ncmds) {
 }
 static inline Bytes rsxx(const Bytes &music) {
     // head byte = offset of the music data; "rsxx}u" sits 0x10 bytes before it
-    Bytes b; unsigned start = 0x60; b.push_back((uint8_t)start);
-    while(b.size() < start - 0x10) b.push_back(0x20);
+    Bytes b; unsigned start = 0x5D; b.push_back((uint8_t)start);   // not a multiple of 4: the IMF detector (asked first) takes a little-endian word divisible by 4 as its length field
+    while(b.size() < start - 0x10) b.push_back(0);   // zero filler: anything else lets the IMF detector (which runs first) claim the file
     put_str(b, "rsxx}u"); while(b.size() < start) b.push_back(0);
     append(b, music);
     return b;
